@@ -1,7 +1,7 @@
 """Data for MANIFEST.json (edit here, then run tools_manifest.py)."""
 
 PYVC_PROPS = ["C04", "C08", "C16"]
-BOUNDED_PROPS: list[str] = ["C04", "C09", "C10", "C11", "C12", "C15"]
+BOUNDED_PROPS: list[str] = ["C04", "C06", "C09", "C10", "C11", "C12", "C15"]
 
 
 def chk(pid, category, text, note, technique, design_ref):
@@ -74,6 +74,12 @@ def bchk(pid, text, note, design_ref):
 
 
 CHECKS += [
+    bchk("C06", "BOUNDED, exhaustive in the property's own bound (never counted as proved). Runtime contract on the real calculate_logic_gates: the "
+         "inferred AND/OR/XOR tree admits every observed successor set, for every gate tree over <= 5 (thorough 6) distinct events, depth <= 3, "
+         "alternating operators, with its full outcome family; and admits exactly those sets on the stated sub-class (OR over plain events only, no AND "
+         "with two OR children). Soundness additionally on arbitrary observed families over 3 events (all) and 4 events (4000 sampled; thorough all 32767).",
+         "Bounded exploration: pm4py's inductive miner is external and has no contract, so no function-level contract can carry the property; the "
+         "deductive attempt on utils.get_weighted_cover (DESIGN 4/C06) is not part of this check.", "DESIGN.md 4/C06"),
     bchk("C09", "BOUNDED (never counted as proved). The contract of find_unique_graphs - for each workflow name the selected traces contain exactly one "
          "member of every call-tree shape class, never two of one class, same answer for every batch size and ingestion order - is evaluated on the real "
          "SQLDataHolder over all pairs of small labelled trees plus random deeper ones (DESIGN 4/C09). The recursive hash function's deductive contract "
@@ -109,7 +115,6 @@ NOT_APPLICABLE = [
     {"property_id": "C05", "reason": "text well-formedness depends on the nesting shapes the heuristic walk can emit; the emitter alone has no closed precondition (DESIGN 5)"},
     {"property_id": "C07", "reason": "recursive SCC decomposition with reachability over mutated graphs; inputs 'graphs the learner can build' have no closed precondition (DESIGN 5)"},
     {"property_id": "C13", "reason": "needs a formal semantics of jq programs; contracts on string concatenation cannot express it (DESIGN 5)"},
-    {"property_id": "C06", "reason": "check under construction in this round (not yet registered)"},
     {"property_id": "C14", "reason": "check under construction in this round (not yet registered)"},
 ]
 
